@@ -227,7 +227,73 @@ func (x *Exec) frontBuiltin(env *SpecEnv, st *State, name string, args []TV) (TV
 		}
 		return out
 	}
+	litArg := func(i int) (string, bool) {
+		if i >= len(args) {
+			return "", false
+		}
+		return x.sym.LitValue(env.term(args[i]).S)
+	}
+	intArg := func(i int) (int, bool) {
+		if i >= len(args) {
+			return 0, false
+		}
+		v, ok := isIntLit(env.term(args[i]))
+		return int(v), ok
+	}
 	switch name {
+	case "calls":
+		// calls("name"): how often a callee whose contract says "records name" was called on this path
+		if n, ok := litArg(0); ok {
+			return TV{VScalar{IntLit(int64(len(calls(n))))}, intT}, true
+		}
+		return TV{}, false
+	case "callarg", "callres":
+		// callarg("name", k, i): argument i (receiver first) of the k-th recorded call; callres: result i
+		n, ok1 := litArg(0)
+		k, ok2 := intArg(1)
+		i, ok3 := intArg(2)
+		cs := calls(n)
+		if !ok1 || !ok2 || !ok3 || k < 0 || k >= len(cs) {
+			return TV{}, false
+		}
+		if name == "callarg" {
+			if i < 0 || i >= len(cs[k].Args) {
+				return TV{}, false
+			}
+			return cs[k].Args[i], true
+		}
+		if i < 0 || i >= len(cs[k].Results) {
+			return TV{}, false
+		}
+		nargs := len(cs[k].Args) - len(cs[k].Results)
+		return TV{cs[k].Results[i], cs[k].Args[nargs+i].T}, true
+	case "closed", "sends":
+		// closed(ch): the channel is closed; sends(ch): values sent on it by this path
+		if len(args) != 1 {
+			return TV{}, false
+		}
+		ch, ok := x.force(st, args[0].V).(VChan)
+		if !ok {
+			return TV{}, false
+		}
+		if ch.Obj < 0 {
+			if name == "closed" {
+				return TV{VScalar{TFalse}, boolT}, true
+			}
+			return TV{VScalar{IntLit(0)}, intT}, true
+		}
+		co, ok := st.heap[ch.Obj].(*ChanObj)
+		if !ok {
+			return TV{}, false
+		}
+		if name == "closed" {
+			c := co.Closed
+			if c.S == "" {
+				c = TFalse
+			}
+			return TV{VScalar{c}, boolT}, true
+		}
+		return TV{VScalar{IntLit(int64(len(co.Sent)))}, intT}, true
 	case "ginid":
 		// the id path parameter without its leading slash (extractId)
 		v := x.sym.Named("gin.param.id", SStr)
